@@ -1,4 +1,5 @@
 import RichModel.Model.Theme
+import RichModel.Gen.PyLower
 /-
 Model of the part of CPython 3.12 `configparser.ConfigParser` (default arguments: delimiters `=` `:`,
 comment prefixes `#` `;`, no inline comments, strict, `BasicInterpolation`, `optionxform = str.lower`)
@@ -7,8 +8,8 @@ that `Theme.from_file` exercises: `read_file(f)` followed by `items("styles")`, 
 
 `configparser` is not part of Rich: this model is an *assumption about the runtime* that is validated by
 the correspondence run on every generated config text.  It never defaults: inputs it does not cover
-(`%(name)s` references while interpolation is on, non-ASCII option names while lower-casing is on)
-answer `unmodelled`.  Covered: comments, empty lines inside values, indented continuation lines,
+(`%(name)s` references while interpolation is on, option names containing U+03A3 while lower-casing
+is on) answer `unmodelled`.  Covered: comments, empty lines inside values, indented continuation lines,
 any number of sections, `[DEFAULT]` inheritance into `[styles]`, duplicate sections / options,
 lines without delimiter, empty option names.
 
@@ -35,6 +36,25 @@ def asciiLower (c : Char) : Char :=
   if 65 ≤ c.toNat ∧ c.toNat ≤ 90 then Char.ofNat (c.toNat + 32) else c
 
 def isAscii (c : Char) : Bool := c.toNat < 128
+
+/-- lookup in the generated table (first match; a list, so that the kernel can evaluate it) -/
+def lowerLookup : List (Nat × List Nat) → Nat → Option (List Nat)
+  | [], _ => none
+  | r :: rest, cp => if r.1 = cp then some r.2 else lowerLookup rest cp
+
+/-- `str.lower()` of one character that is not U+03A3: ASCII directly, the rest from the table
+translated from the running Python (`Gen.pyLower`; a character may lower to several). -/
+def lowerChar (c : Char) : List Char :=
+  if c.toNat < 128 then [asciiLower c]
+  else
+    match lowerLookup Gen.pyLower c.toNat with
+    | some r => r.map Char.ofNat
+    | none => [c]
+
+/-- `str.lower()`; `none` when the string contains a capital sigma (U+03A3), whose lower-casing
+depends on its position in the word in CPython (outside the model). -/
+def lowerName (n : Name) : Option Name :=
+  if n.any (fun c => c.toNat = 0x3A3) then none else some (n.flatMap lowerChar)
 
 /-- Iterating an `io.StringIO`: lines end at `\n` only.  (The pieces are returned without their
 terminator, and a text ending in `\n` yields a final empty piece: an empty line is skipped by
@@ -143,9 +163,9 @@ def step (lower : Bool) (st : RS) (line : List Char) : Res RS :=
             | none => .ok { st with perr := true, indent := curIndent }      -- `_handle_error`, keep going
             | some d =>
               let raw := rstrip (v.take d)
-              if lower && !(raw.all isAscii) then .unmodelled
-              else
-                let name := if lower then raw.map asciiLower else raw
+              match (if lower then lowerName raw else some raw) with        -- optionxform
+              | none => .unmodelled
+              | some name =>
                 let opts := (dget st.secs s).getD []
                 if (dget opts name).isSome then .err .duplicateOption
                 else .ok { st with secs := dset st.secs s (dset opts name [strip (v.drop (d + 1))]),
@@ -226,12 +246,12 @@ def noSpaceEnds (s : List Char) : Bool :=
   | c :: _ => !isSpace c && (match s.reverse with | d :: _ => !isSpace d | [] => false)
 
 /-- Option names a config file can carry: non-empty, `strip()`-stable, without newline or delimiter,
-not starting a comment or a section header; and, while the parser lower-cases names, ASCII without
-upper-case letters (non-ASCII names are outside the model of `str.lower`). -/
+not starting a comment or a section header; and, while the parser lower-cases names, unchanged by
+`str.lower()` (and free of U+03A3, whose lower-casing is outside the model). -/
 def safeName (lower : Bool) (n : Name) : Bool :=
   noSpaceEnds n && n.all (fun c => c != '\n' && !isDelim c) &&
   (match n with | c :: _ => c != '#' && c != ';' && c != '[' | [] => false) &&
-  (!lower || n.all (fun c => isAscii c && asciiLower c == c))
+  (!lower || lowerName n == some n)
 
 /-- Values: non-empty, `strip()`-stable, one line; and, while the parser interpolates, without `%`. -/
 def safeValue (interp : Bool) (v : List Char) : Bool :=
